@@ -30,6 +30,10 @@ fn main() {
         }
         i += 1;
     }
+    if id == "C10-REGEN-GOLDEN" {
+        checks::c10::regen_golden();
+        return;
+    }
     ev::install_quiet_panic_hook();
     macro_rules! dispatch {
         ($($name:literal => $m:ident),* $(,)?) => {
@@ -54,6 +58,8 @@ fn main() {
         "C06" => c06,
         "C07" => c07,
         "C08" => c08,
+        "C09" => c09,
+        "C10" => c10,
         "C11" => c11,
     );
 }
